@@ -25,6 +25,26 @@ CLAIMED = {
           'Tied to /repo by vm_compute correspondence; an integer-arithmetic oracle (operands unchanged, result class, stream positions) gives the replay.'),
     note='Trusted: Coq kernel; bitarray element-wise operators modelled as map2 (exercised by the same cases); hand model tied by differential correspondence.',
     technique='Coq proof (list induction, Z.testbit) + vm_compute correspondence', design='§5 C16'),
+ 'C03': dict(
+    text=('Coq theorem step_refines: for every content and every argument value, the model of insert/overwrite/append/prepend/del/set/invert/reverse/rol/ror/<<=/>>=/clear equals a '
+          'specification written with firstn/skipn/rev/++ only (same new content or same exception), lifted by induction to every finite program (program_refines), plus the frame theorem '
+          '(bits outside [s,e) and the length are unchanged). The model also covers byteswap, slice/item assignment with ints and bitstrings, set/invert over lists and ranges, replace, *=, &= |= ^=; '
+          'those are tied and oracle-checked but not yet proved against a list spec. Correspondence runs random programs of 1-12 mutators, state compared after every step.'),
+    note='Trusted: Coq kernel; bitarray slice assignment/deletion modelled in Prims (ba_setslice/ba_delslice; exercised by the same cases); hand model tied by per-step differential correspondence; the str reference model (tools/props/refmodel.py) is the oracle.',
+    technique='Coq proof (refinement to list spec, induction over programs) + vm_compute correspondence', design='§5 C03'),
+ 'C07': dict(
+    text=('Coq model of BitStore.find/rfind/findall_msb0 (byte fast path and general path), Bits.find/rfind/findall/__contains__/cut/split/startswith/endswith/count and BitArray._replace. '
+          'Proved so far: the general path equals the brute-force filter, find is its head, empty patterns are rejected by find/findall/split, count totals. '
+          'The byte fast path equivalence is stated in DESIGN and carried by correspondence + the quadratic-scan oracle for now (partial).'),
+    note='PARTIAL proof: fast_path_eq_general, split/replace loop invariants not yet proved; they rest on differential correspondence (700 quick / 12000+ thorough cases incl. >8192-bit data) and the brute-force oracle. Trusted: Prims.search_all as the model of bitarray.search/find, Search.bytes_find as bytes.find.',
+    technique='Coq proof (partial) + vm_compute correspondence + brute-force oracle', design='§5 C07'),
+ 'C12': dict(
+    text=('Coq theorems: lsb0 indexing is msb0 indexing of the reversed bits for every index; lsb0 slicing with any start/stop and any positive step is the reversed msb0 slice of the reversed bits '
+          '(the repo\'s own hypothesis test states this law for lengths <= 9; here it is proved for all lengths). Every other positional operation (negative steps, assignment, deletion, set, invert, '
+          'find/rfind/findall incl. the chunked reverse scan on > 8192 bits, startswith/endswith, cut, replace, insert/overwrite/append/prepend, ranged reverse/byteswap, rol/ror, shifts, read and pack order, '
+          'mode-free interpretations, toggling) is modelled with the lsb0 method table and checked against the mirror of the msb0 reference on every run.'),
+    note='PARTIAL proof: mirror theorems proved for index and positive-step slicing; the other operations are tied by correspondence (model with lsb0=true) and decided by the mirror oracle. Seven lsb0 defects found this way were repaired (known_findings.json).',
+    technique='Coq proof (nia over div/mod) + vm_compute correspondence + mirror oracle', design='§5 C12'),
 }
 
 def main():
